@@ -27,7 +27,7 @@ GateTarget GateTarget::from_target_str(std::string_view text) {
     int c = text[0];
     size_t k = 1;
     auto t = read_single_gate_target(c, [&]() {
-        return k < text.size() ? text[k++] : EOF;
+        return k < text.size() ? (int)(unsigned char)text[k++] : EOF;
     });
     if (c != EOF) {
         throw std::invalid_argument("Unparsed text at end of " + std::string(text));
